@@ -97,6 +97,47 @@ async def rx(gateway: Gateway, line: str) -> tuple[str, Any]:
     return "ok", msg
 
 
+class Listener:
+    """One long-lived listen() generator, as in the README's `async for`; renewed only after an error."""
+
+    def __init__(self, gateway: Gateway) -> None:
+        self.gateway = gateway
+        self.agen = None
+        self.renewals = 0
+
+    async def next(self, line: str) -> tuple[str, Any]:
+        transport = self.gateway.transport
+        transport.inbox.append(line)  # type: ignore[attr-defined]
+        if self.agen is None:
+            self.agen = self.gateway.listen()
+            self.renewals += 1
+        try:
+            msg = await self.agen.__anext__()
+        except AIOMySensorsError as err:
+            await self._drop()
+            return "liberr", err
+        except Drained:
+            await self._drop()
+            return "drained", None
+        except Exception as err:  # noqa: BLE001
+            await self._drop()
+            return "leak", err
+        finally:
+            transport.inbox.clear()  # type: ignore[attr-defined]
+        return "ok", msg
+
+    async def _drop(self) -> None:
+        agen, self.agen = self.agen, None
+        if agen is not None:
+            try:
+                await agen.aclose()
+            except Exception:  # noqa: BLE001
+                pass
+
+    async def close(self) -> None:
+        await self._drop()
+
+
 async def send(gateway: Gateway, msg: Any, buffer: bool | None = None) -> tuple[str, Any]:
     try:
         if buffer is None:
